@@ -204,6 +204,9 @@ type XZCfg struct {
 	// (Verify fills in defaults in place), then every field is overwritten with this
 	// configuration's values and the writer is created from that same variable
 	Pre *XZCfg `json:",omitempty"`
+	// PreUsed: instead of Verify, a writer is created from the Pre configuration and used, and the
+	// configuration is copied back from that writer (Writer embeds WriterConfig) before it is changed
+	PreUsed bool `json:",omitempty"`
 }
 
 // build returns the xz.WriterConfig the way the case's configuration history produces it.
@@ -212,7 +215,16 @@ func (c XZCfg) build() xz.WriterConfig {
 		return c.cfg()
 	}
 	w := c.Pre.cfg()
-	_ = w.Verify()
+	if c.PreUsed {
+		var sb sinkBuf
+		if w0, err := w.NewWriter(&sb); err == nil {
+			w0.Write([]byte("an earlier stream written with the first configuration"))
+			w0.Close()
+			w = w0.WriterConfig
+		}
+	} else {
+		_ = w.Verify()
+	}
 	f := c.cfg()
 	w.Properties, w.DictCap, w.BufSize, w.BlockSize = f.Properties, f.DictCap, f.BufSize, f.BlockSize
 	w.CheckSum, w.NoCheckSum, w.Matcher = f.CheckSum, f.NoCheckSum, f.Matcher
@@ -223,6 +235,9 @@ func (c XZCfg) String() string {
 	if c.Pre != nil {
 		q := c
 		q.Pre = nil
+		if c.PreUsed {
+			return "taken from a used writer of " + c.Pre.String() + " then set to " + q.String()
+		}
 		return "verified " + c.Pre.String() + " then set to " + q.String()
 	}
 	m := "HT4"
